@@ -106,6 +106,13 @@ def stripBom : Str → Str
   | '\uFEFF' :: r => r
   | r => r
 
+/-- all-or-nothing map: `none` as soon as one element fails -/
+def mapOpt {α β : Type} (f : α → Option β) : List α → Option (List β)
+  | [] => some []
+  | a :: l => match f a, mapOpt f l with
+    | some b, some bs => some (b :: bs)
+    | _, _ => none
+
 inductive Err where
   | format   -- evo's FileInterfaceException
   | range    -- outside the modelled domain (a literal overflowing binary64)
@@ -120,9 +127,9 @@ def readTable (d : Char) (okWidth : Nat → Bool) (t : Str) : Except Err (List (
   | r0 :: rest =>
     if !okWidth r0.length then .error .format
     else if !rest.all (fun r => r.length == r0.length) then .error .format
-    else match (r0 :: rest).mapM (fun r => r.mapM parseDec) with
+    else match mapOpt (mapOpt parseDec) (r0 :: rest) with
       | none => .error .format
-      | some m => match m.mapM (fun r => r.mapM F64.rne) with
+      | some m => match mapOpt (mapOpt F64.rne) m with
         | none => .error .range
         | some m => .ok m
 
@@ -147,7 +154,7 @@ def tumOfRow : List Rat → Option StampedPose
 def readTum (t : Str) : Except Err (List StampedPose) :=
   match readTable ' ' (· == 8) t with
   | .error e => .error e
-  | .ok m => match m.mapM tumOfRow with
+  | .ok m => match mapOpt tumOfRow m with
     | none => .error .format
     | some l => .ok l
 
@@ -174,7 +181,7 @@ def kittiOfRow : List Rat → Option Mat34
 def readKitti (t : Str) : Except Err (List Mat34) :=
   match readTable ' ' (· == 12) t with
   | .error e => .error e
-  | .ok m => match m.mapM kittiOfRow with
+  | .ok m => match mapOpt kittiOfRow m with
     | none => .error .format
     | some l => .ok l
 
@@ -188,9 +195,9 @@ def eurocOfRow : List Rat → Option (Option StampedPose)
 def readEuroc (t : Str) : Except Err (List StampedPose) :=
   match readTable ',' (· ≥ 8) t with
   | .error e => .error e
-  | .ok m => match m.mapM eurocOfRow with
+  | .ok m => match mapOpt eurocOfRow m with
     | none => .error .format
-    | some l => match l.mapM id with
+    | some l => match mapOpt id l with
       | none => .error .range
       | some l => .ok l
 
@@ -220,7 +227,7 @@ def layoutKitti (tok : Rat → Str) (l : List Mat34) : Str := layoutRows tok (l.
 /-! ### quaternion → rotation (`transformations.quaternion_matrix`), exact -/
 
 /-- 4·ε of binary64: below this squared norm `quaternion_matrix` returns the identity -/
-def quatEps : Rat := mkRat 1 (2 ^ 50)
+def quatEps : Rat := 1 / 1125899906842624
 
 /-- rows of the 3×3 rotation block for the quaternion `(w, x, y, z)`; the factor `2/n`
 (`n = |q|²`) is what `q *= sqrt(2/n); outer(q, q)` produces, without the square root -/
@@ -250,8 +257,8 @@ def gram3 (m : List (List Rat)) : Option (List Rat × List Rat) :=
 
 /-- tolerances of `np.allclose(·, ·, atol=1e-6)` (default `rtol=1e-5`): entries compared with 1
 may deviate by `1e-6 + 1e-5`, entries compared with 0 by `1e-6` -/
-def tolDiag : Rat := mkRat 11 1000000
-def tolOff : Rat := mkRat 1 1000000
+def tolDiag : Rat := 11 / 1000000
+def tolOff : Rat := 1 / 1000000
 
 /-- `is_sim3(M)` in exact arithmetic.  With `s = det^(1/3)` evo tests `RᵀR / s² ≈ I`
 (and `det(R/s) ≈ 1`, which holds identically); cubing both sides removes the root:
@@ -344,25 +351,26 @@ def parseFlatJson (s : Str) : Option (List (Str × Rat)) :=
 def lookupKey (k : Str) (m : List (Str × Rat)) : Option Rat :=
   (m.reverse.find? (fun p => p.1 == k)).map (·.2)
 
-/-- `load_transform_json`: the 4×4 matrix `sim3(R(q), (x,y,z), scale)` (exact rotation, the
-doubles are the correctly rounded literals); `Err.format` when one of the seven keys is missing -/
+/-- the matrix `sim3(R(q), (x,y,z), scale)` from the key → value map (values = exact literals,
+rounded to doubles here; the rotation is exact); `Err.format` when one of the seven keys is missing -/
+def transformOfMap (m : List (Str × Rat)) : Except Err (List (List Rat)) :=
+  let get (k : String) : Option Rat := lookupKey k.toList m
+  match get "x", get "y", get "z", get "qx", get "qy", get "qz", get "qw" with
+  | some x, some y, some z, some qx, some qy, some qz, some qw =>
+    let sc := (get "scale").getD 1
+    match mapOpt F64.rne [x, y, z, qx, qy, qz, qw, sc] with
+    | some [x, y, z, qx, qy, qz, qw, sc] =>
+      match quatToRot qw qx qy qz with
+      | [[a, b, c], [d, e, f], [g, h, i]] =>
+        .ok [[sc * a, sc * b, sc * c, x], [sc * d, sc * e, sc * f, y],
+             [sc * g, sc * h, sc * i, z], [0, 0, 0, 1]]
+      | _ => .error .range
+    | _ => .error .range
+  | _, _, _, _, _, _, _ => .error .format
+
+/-- `load_transform_json`; `none`: the text is not a flat JSON object of numbers -/
 def loadTransformJson (s : Str) : Option (Except Err (List (List Rat))) :=
-  match parseFlatJson s with
-  | none => none
-  | some m =>
-    let get (k : String) : Option Rat := lookupKey k.toList m
-    match get "x", get "y", get "z", get "qx", get "qy", get "qz", get "qw" with
-    | some x, some y, some z, some qx, some qy, some qz, some qw =>
-      let sc := (get "scale").getD 1
-      match [x, y, z, qx, qy, qz, qw, sc].mapM F64.rne with
-      | some [x, y, z, qx, qy, qz, qw, sc] =>
-        match quatToRot qw qx qy qz with
-        | [[a, b, c], [d, e, f], [g, h, i]] =>
-          some (.ok [[sc * a, sc * b, sc * c, x], [sc * d, sc * e, sc * f, y],
-                     [sc * g, sc * h, sc * i, z], [0, 0, 0, 1]])
-        | _ => some (.error .range)
-      | _ => some (.error .range)
-    | _, _, _, _, _, _, _ => some (.error .format)
+  (parseFlatJson s).map transformOfMap
 
 /-! ### ROS bag stamps (`write_bag_trajectory` / `read_bag_trajectory`) -/
 
